@@ -122,6 +122,11 @@ type getEvent struct {
 	Exact  bool     `json:"exact"`  // body is byte-identical to what storage holds
 	Status int      `json:"status"` // HTTP status (0 when the API is called in process)
 	Client string   `json:"client"` // what the bundled client made of it: bytes | notexist | error
+	FRun   bool     `json:"frun"`
+	Fired  []string `json:"fired"`
+	OpenTx int      `json:"opentx"`
+	InUse  int      `json:"inuse"`
+	Failed bool     `json:"failed"` // the read reported an error other than "nothing stored"
 }
 
 type getLogsEvent struct {
@@ -446,7 +451,17 @@ func execPhase(base *world.World, tag string, phase int, steps []seqStep, storeK
 				id = ref.LogID("verif.example/" + tag + "/not-configured")
 				l = w.Logs[w.P.Logs[0]]
 			}
-			ev := getEvent{E: "get", Run: tag, K: k, Log: s.Log, Val: world.CP{None: true}}
+			ev := getEvent{E: "get", Run: tag, K: k, Log: s.Log, Val: world.CP{None: true}, FRun: fl != nil, Fired: []string{}}
+			if fl != nil {
+				for _, f := range s.Faults {
+					fl.arm(f, 1)
+				}
+				if st.hook != nil {
+					for _, f := range s.DFaults {
+						st.hook.arm(f, 1)
+					}
+				}
+			}
 			var body []byte
 			if useHTTP {
 				resp, err := srv.Client().Get(srv.URL + fmt.Sprintf(wapi.HTTPGetCheckpoint, id))
@@ -473,14 +488,36 @@ func execPhase(base *world.World, tag string, phase int, steps []seqStep, storeK
 				if err == nil {
 					body = b
 					ev.Client = "bytes"
-				} else {
+				} else if isNotFound(err) {
 					ev.Client = "notexist"
+				} else {
+					ev.Client = "error"
+					ev.Failed = true
+				}
+			}
+			if fl != nil {
+				fired, _ := fl.disarm()
+				if st.hook != nil {
+					fired = append(fired, st.hook.disarm()...)
+					ev.OpenTx = st.hook.open()
+				}
+				if st.db != nil {
+					ev.InUse = st.db.Stats().InUse
+				}
+				ev.Fired = nonNil(fired)
+				if ev.InUse > 0 {
+					return append(events, ev), nil // the single connection is stuck: the run cannot go on
 				}
 			}
 			stored, has := pre.raw[s.Log]
 			if body != nil {
 				ev.Val = w.Project(l, body).CP
 				ev.Exact = has && string(stored) == string(body)
+			} else if ev.Failed {
+				ev.Exact = true
+				if has { // the judge compares val with the stored value: a failed read reports nothing
+					ev.Val = w.Project(l, stored).CP
+				}
 			} else {
 				ev.Exact = !has
 			}
